@@ -33,9 +33,20 @@ class CallbackContext(Location, ActionCallback):
     to close when the line/method completes.
     """
 
-    def __init__(self, event: str, filename: str, line: int, name: str, callbacks: List['ActionCallback']):
-        """Create new callback context."""
+    def __init__(self, event: str, filename: str, line: int, name: str, callbacks: List['ActionCallback'],
+                 frame: FrameType = None):
+        """
+        Create new callback context.
+
+        :param event: the event that opened this context
+        :param filename: the file of the frame that opened this context
+        :param line: the line that opened this context
+        :param name: the function that opened this context
+        :param callbacks: the callbacks to run when this context completes
+        :param frame: the frame (invocation) that opened this context, if known
+        """
         super().__init__(Location.Position.END)
+        self.__frame = frame
         self.__event = event
         self.__filename = filename
         self.__function_name = name
@@ -61,6 +72,15 @@ class CallbackContext(Location, ActionCallback):
             return self.__check_at_next_line(event, file, function_name)
         else:
             return self.__check_at_method_end(event)
+
+    def opened_by(self, frame: FrameType) -> bool:
+        """
+        Check if this context was opened by the given invocation.
+
+        :param frame: the frame of an invocation
+        :return: True, if that very frame opened this context
+        """
+        return self.__frame is not None and self.__frame is frame
 
     def process(self, ctx: 'TriggerContext', event: str, frame: FrameType, arg: any):
         """
